@@ -6,6 +6,7 @@ From Coq Require Import List NArith ZArith Bool Sorted.
 From V Require Import Lib.Enc Gen.Roaring Model.Bits Model.Roaring.
 From V Require Import Proofs.RoaringArr Proofs.RoaringCont Proofs.RoaringTop Proofs.RoaringIter Proofs.RoaringRefine.
 From V Require Run.C03.
+From V Require Import Lib.GoSem Proofs.RoaringCodeFacts Gen.RoaringCode Proofs.RoaringCode.   (* last: m_get / m_set are GoSem's *)
 Import ListNotations.
 Local Open Scope N_scope.
 
@@ -91,3 +92,93 @@ Print Assumptions c03_roaring_refines_set.
 Theorem c03_entry_model_eq_spec : forall args, Run.C03.entry 0 args = Run.C03.entry 1 args.
 Proof. exact entry_model_eq_spec. Qed.
 Print Assumptions c03_entry_model_eq_spec.
+
+(* ---------------------------------------------------------------- the model is the code: the containers, translated *)
+(* Gen/RoaringCode.v is produced on every run by the Go -> Gallina translator (gen/trans*.go, gen/roaring_code.go) from the CURRENT
+   setz/roaring_bitmap.go and setz/bits.go: search, arrayContainer.{Contains, Remove, Add, Len, Type}, arrayContainerIter.{Next,
+   Value}, bitmapContainer.{Add, Remove, Contains, Len, Type, setZero}, bitmapContainerIter.{Next, Value} and what they run on:
+   Bitmap.{Add, Remove, Contains, add}, Bits.{Add, Remove, Len}, BitmapIter.{Next, Value}.  Each generated function equals the
+   function of the hand model it is named after, for ALL model values (the generated code computes on Z and checked slices, the
+   model on N and total lists: zl = map Z.of_N, of_arr / of_bm / of_bits / of_cont / of_aiter / of_iter are the total, injective
+   conversions from model values to generated Records; Ret = normal completion, Panic = the Go code panics).
+   Premises, all of them facts the Go types guarantee or fuel bounds:
+     len_ok v      len(values) < 2^63 (a Go int): uint(low+high) does not wrap;
+     words_ok set  the words are uint64 (the model's N is unbounded): w & ^(1<<bit) clears the bit;
+     u16           the elements / buf entries / x are uint16: the conversion indexes a 1024-word bitmap with them (the private
+                   Bitmap.add does not grow: code_Bitmap_add states the panic beyond the last word);
+     fuel          length < fuel for search, 32 < fuel for setZero (32 rounds), length buf < fuel for the conversion,
+                   65 < fuel and the remaining words < fuel for the iterator; the loops are equal to the model for every such fuel.
+   arrayContainer.Add: the container returned, the changed flag and the scratch buffer are c_add's; the receiver afterwards is
+   the new array (array branches) or the untouched old one (conversion).  The conversion reads the array's memory through
+   unsafe.Pointer: the translation makes those 1024 words a PARAMETER (mem) and the theorem holds for every content of it,
+   because setZero - proved here, for the loop in the source - clears all bmp_words words before the values are added.
+   Iterators: n = i + 1 for the array iterator; Value panics outside 1 <= n <= len, which the statement says; an exhausted
+   bitmap iterator stops in end_iter.  BitmapIter.Value is stated with the uint wrap the code has (wrap 64).
+   Of RoaringBitmap.Add / Remove / Contains themselves only the leading declarations  high := uint16(num >> 16); low := uint16(num)
+   are translated (g_…_head): they are the model's hi / lo for every num; what follows goes through listz.SkipList and is not translated. *)
+Theorem c03_code_is_model :
+  (forall fuel v x, len_ok v -> (length v < fuel)%nat ->
+     g_search fuel (zl v) (Z.of_N x) = Ret (Z.of_N (search v (lenN v) x))) /\
+  (forall fuel v x, len_ok v -> (length v < fuel)%nat ->
+     g_search fuel (zl v) (Z.of_N x) = Ret (Z.of_N (search_loop fuel v x 0 (lenN v)))) /\
+  (forall fuel v x, len_ok v -> (length v < fuel)%nat ->
+     g_arrayContainer_Contains fuel (of_arr v) (Z.of_N x) = Ret (a_contains v x)) /\
+  (forall fuel v x, len_ok v -> (length v < fuel)%nat ->
+     g_arrayContainer_Remove fuel (of_arr v) (Z.of_N x) = Ret (of_arr (fst (a_remove v x)), snd (a_remove v x))) /\
+  (forall fuel v x buf mem,
+     len_ok v -> (length v < fuel)%nat -> (32 < fuel)%nat -> (length buf < fuel)%nat ->
+     Forall u16 v -> Forall u16 buf -> u16 x -> length mem = N.to_nat bmp_words ->
+     g_arrayContainer_Add fuel (of_arr v) (Z.of_N x) (zl buf) (zl mem) =
+     Ret (let '(c', ok, buf') := c_add (Arr v) x buf in
+          (of_arr (match c' with Arr v' => v' | Bmp _ => v end), (zl buf', (of_cont c', ok))))) /\
+  (forall v, g_arrayContainer_Len (of_arr v) = Ret (c_len (Arr v))) /\
+  (forall ac, g_arrayContainer_Type ac = Ret 1%Z) /\
+  (forall v n, g_arrayContainerIter_Next (of_aiter v n) =
+     Ret (match inner_next (Arr v) (IArr n) with Some (IArr n') => (of_aiter v n', true) | _ => (of_aiter v n, false) end)) /\
+  (forall v n, g_arrayContainerIter_Value (of_aiter v n) =
+     if (1 <=? n) && (n <=? lenN v) then Ret (Z.of_N (inner_value (Arr v) (IArr n))) else Panic) /\
+  (forall set num, g_Bitmap_Contains (of_bm set) (Z.of_N num) = Ret (contains set num)) /\
+  (forall set num, g_Bitmap_Add (of_bm set) (Z.of_N num) = Ret (of_bm (fst (add set num)), snd (add set num))) /\
+  (forall set num, words_ok set ->
+     g_Bitmap_Remove (of_bm set) (Z.of_N num) = Ret (of_bm (fst (remove set num)), snd (remove set num))) /\
+  (forall set num, g_Bitmap_add (of_bm set) (Z.of_N num) =
+     if (widx num <? length set)%nat then Ret (of_bm (set_bit set num)) else Panic) /\
+  (forall b num, g_Bits_Add (of_bits b) (Z.of_N num) = Ret (of_bits (fst (b_add b num)), snd (b_add b num))) /\
+  (forall b num, words_ok (words b) ->
+     g_Bits_Remove (of_bits b) (Z.of_N num) = Ret (of_bits (fst (b_remove b num)), snd (b_remove b num))) /\
+  (forall b, g_Bits_Len (of_bits b) = Ret (cached b)) /\
+  (forall b x buf, g_bitmapContainer_Add (of_bits b) (Z.of_N x) (zl buf) =
+     Ret (let '(c', ok, _) := c_add (Bmp b) x buf in (of_bits (fst (b_add b x)), (of_cont c', ok)))) /\
+  (forall b x, words_ok (words b) -> g_bitmapContainer_Remove (of_bits b) (Z.of_N x) =
+     Ret (let (c', ok) := c_remove (Bmp b) x in (of_bits (fst (b_remove b x)), ok))) /\
+  (forall b x, g_bitmapContainer_Contains (of_bits b) (Z.of_N x) = Ret (c_contains (Bmp b) x)) /\
+  (forall b, g_bitmapContainer_Len (of_bits b) = Ret (c_len (Bmp b))) /\
+  (forall b, g_bitmapContainer_Type b = Ret 2%Z) /\
+  (forall fuel b, length (words b) = N.to_nat bmp_words -> (32 < fuel)%nat ->
+     g_bitmapContainer_setZero fuel (of_bits b) =
+     Ret (of_bits {| words := repeat 0 (N.to_nat bmp_words); cached := cached b |})) /\
+  (forall fuel set it, (65 < fuel)%nat -> (length set - wi it < fuel)%nat ->
+     g_BitmapIter_Next fuel (of_iter set it) =
+     Ret (match bnext set it with Some it' => (of_iter set it', true) | None => (of_iter set (end_iter set it), false) end)) /\
+  (forall set it, g_BitmapIter_Value (of_iter set it) = Ret (wrap 64 (Z.of_N (value it)))) /\
+  (forall fuel b it, (65 < fuel)%nat -> (length (words b) - wi it < fuel)%nat ->
+     g_bitmapContainerIter_Next fuel (of_iter (words b) it) =
+     Ret (match inner_next (Bmp b) (IBmp it) with
+          | Some (IBmp it') => (of_iter (words b) it', true)
+          | _ => (of_iter (words b) (end_iter (words b) it), false)
+          end)) /\
+  (forall b it, g_bitmapContainerIter_Value (of_iter (words b) it) = Ret (Z.of_N (inner_value (Bmp b) (IBmp it)))) /\
+  (forall num, g_RoaringBitmap_Add_head (Z.of_N num) = Ret (Z.of_N (hi num), Z.of_N (lo num))) /\
+  (forall num, g_RoaringBitmap_Remove_head (Z.of_N num) = Ret (Z.of_N (hi num), Z.of_N (lo num))) /\
+  (forall num, g_RoaringBitmap_Contains_head (Z.of_N num) = Ret (Z.of_N (hi num), Z.of_N (lo num))).
+Proof.
+  exact (conj code_search (conj code_search_fuel (conj code_arrayContainer_Contains (conj code_arrayContainer_Remove
+        (conj code_arrayContainer_Add (conj code_arrayContainer_Len (conj code_arrayContainer_Type
+        (conj code_arrayContainerIter_Next (conj code_arrayContainerIter_Value (conj code_Bitmap_Contains (conj code_Bitmap_Add
+        (conj code_Bitmap_Remove (conj code_Bitmap_add (conj code_Bits_Add (conj code_Bits_Remove (conj code_Bits_Len
+        (conj code_bitmapContainer_Add (conj code_bitmapContainer_Remove (conj code_bitmapContainer_Contains
+        (conj code_bitmapContainer_Len (conj code_bitmapContainer_Type (conj code_setZero (conj code_BitmapIter_Next
+        (conj code_BitmapIter_Value (conj code_bitmapContainerIter_Next (conj code_bitmapContainerIter_Value
+        (conj code_Add_head (conj code_Remove_head code_Contains_head)))))))))))))))))))))))))))).
+Qed.
+Print Assumptions c03_code_is_model.
